@@ -1,19 +1,23 @@
 (* C14 - String is the GDA scientific string; parsing accepts exactly its grammar.  Statements only;
-   proofs in Proofs/TextProofs.v.
+   proofs in Proofs/TextProofs.v, Proofs/GrammarEquiv.v, Proofs/Accept.v.
    PROVEN for every decimal: the model of String()/Text('G')/MarshalText/Value is the specification's
    to-scientific-string (Spec/Grammar.v: sci_string - plain notation iff exponent <= 0 and adjusted
    exponent >= -6, otherwise one digit, fraction and a signed exponent) including the documented exception
-   (a zero with exponent in [-2000,-1] is written out in plain notation); the coefficient digits printed
-   are digits only, never empty, and denote the coefficient.
-   NOT PROVEN (decided on the implementation instead): that the model of the parser accepts exactly the
-   grammar.  The independent left-to-right recogniser gparse/gdec of Spec/Grammar.v (grammar + package
-   limits on exponent and adjusted exponent) is applied to every generated string (grammar derivations,
-   single and double byte mutations incl. non-ASCII letters that lower-case to ASCII, random bytes) and
-   must agree with the implementation on acceptance AND value; UnmarshalText, Scan(string), Scan([]byte)
-   and NewFromString must agree with SetString; a rejected string must leave no partial value (nil).
-   Format: the model of Format is compared byte for byte, and against fmt's padding rules (fmt_pad). *)
+   (a zero with exponent in [-2000,-1] is written out in plain notation).
+   PROVEN for EVERY byte string (any length, any bytes - a language-membership statement, by induction):
+   the model of setString (prefix / index / slice surgery on the lower-cased copy) and the independent
+   left-to-right recogniser gparse of Spec/Grammar.v (the specification's numeric-string grammar) agree on
+   acceptance and on the value; the only difference is that the written exponent must fit an int32
+   (strconv.ParseInt(.., 10, 32)), which cannot matter for a string shorter than 2^30 bytes whose exponent is
+   inside the package limits.  Hence NewFromString / SetString / UnmarshalText / Scan (BaseContext) return
+   exactly gdec s - the grammar's value when exponent and adjusted exponent are inside the package limits,
+   with no condition and no error, and an error with NO value for everything else.
+   Checked on the implementation (not proven): that the Go code IS this model - correspondence on every
+   generated string (grammar derivations, single and double byte mutations incl. non-ASCII letters that
+   lower-case to ASCII, random bytes); UnmarshalText, Scan(string), Scan([]byte) and NewFromString agree with
+   SetString; Format: the model of Format is compared byte for byte and against fmt's padding rules (fmt_pad). *)
 From Coq Require Import ZArith Bool List.
-From Apd Require Import Generated.Consts Model.Base Model.NumDigits Model.Decimal Model.Context Model.Text Spec.Grammar Proofs.TextProofs.
+From Apd Require Import Generated.Consts Model.Base Model.NumDigits Model.Decimal Model.Context Model.Text Spec.Grammar Proofs.Core Proofs.SetExponent Proofs.TextProofs Proofs.GrammarEquiv Proofs.Accept.
 Open Scope Z_scope.
 
 Theorem C14_string_is_to_scientific_string d : 0 <= coeff d -> format_G d = sci_string d.
@@ -23,6 +27,37 @@ Print Assumptions C14_string_is_to_scientific_string.
 Theorem C14_coefficient_digits n : 0 <= n -> digits_val (digits_of n) = n /\ is_digits (digits_of n) = true.
 Proof. exact (digits_roundtrip n). Qed.
 Print Assumptions C14_coefficient_digits.
+
+(* the parser IS the grammar, on every byte string: gparse_with gexp32 is the recogniser of Spec/Grammar.v with
+   the exponent-part additionally required to fit an int32; graw turns its value into a Decimal *)
+Theorem C14_parser_is_grammar s : set_string_raw s = graw (gparse_with gexp32 s).
+Proof. exact (parse_equiv s). Qed.
+Print Assumptions C14_parser_is_grammar.
+
+(* nothing outside the grammar is accepted, and what is accepted carries the grammar's value *)
+Theorem C14_parser_accepts_only_grammar s d : set_string_raw s = Some d -> graw (gparse s) = Some d.
+Proof. exact (parser_sound s d). Qed.
+Print Assumptions C14_parser_accepts_only_grammar.
+
+Theorem C14_parser_rejects_non_grammar s : gparse s = None -> set_string_raw s = None.
+Proof. exact (parser_rejects s). Qed.
+Print Assumptions C14_parser_rejects_non_grammar.
+
+(* every string of the grammar is accepted: special values always, numbers whenever |exponent| < 2^30 and the
+   string is shorter than 2^30 bytes (so that the written exponent fits the int32 of strconv.ParseInt) *)
+Theorem C14_parser_accepts_grammar s g : gparse s = Some g ->
+  Z.of_nat (length s) < 2 ^ 30 -> (forall ng c e, g = GNum ng c e -> - 2 ^ 30 < e < 2 ^ 30) ->
+  set_string_raw s = graw (Some g).
+Proof. exact (parser_complete s g). Qed.
+Print Assumptions C14_parser_accepts_grammar.
+
+(* the entry points: success exactly on grammar strings inside the package limits (gdec), with the grammar's
+   value, no condition, no error; an error and NO value otherwise *)
+Theorem C14_new_from_string_is_grammar_within_limits est : est_in_range est -> forall s,
+  Z.of_nat (length s) < 2 ^ 30 ->
+  new_from_string est s = Ok (option_map (fun d => (d, c0, ENone)) (gdec s)).
+Proof. exact (new_from_string_is_grammar est). Qed.
+Print Assumptions C14_new_from_string_is_grammar_within_limits.
 
 (* readability / non-vacuity: the switch-over points *)
 Example C14_examples :
